@@ -171,3 +171,18 @@ Proof.
     specialize (IH Hur Hdr s2). destruct (psm_extend_loop_c dbg st ps s2 rest) as [o2 n2]. cbn [snd] in *. lia.
 Qed.
 End NoDD.
+
+(* why the condition is on the characters and not on the segment list: PathSegmentsMut::push(".<TAB>.") on http://h/a/b.
+   extend() skips exactly "." and ".." (documented), but ". TAB ." is not equal to ".."; the Input iterator then drops the
+   TAB, finish_segment sees "..", and the segment b is POPPED: the result is http://h/a/ (same in both configurations),
+   whereas push("..") leaves the URL alone.  Confirmed on the crate:
+     let mut u = Url::parse("http://h/a/b")?; u.path_segments_mut().unwrap().push(".\t."); assert_eq!(u.as_str(), "http://h/a/"); *)
+Definition w_tab_url : url := mkUrl [104;116;116;112;58;47;47;104;47;97;47;98] 4 7 7 8 HI_Domain None 8 None None.
+Lemma push_tab_dotdot_witness :
+  path_segments_session true w_tab_url [PPush [46; 9; 46]]
+  = Some (mkUrl [104;116;116;112;58;47;47;104;47;97;47] 4 7 7 8 HI_Domain None 8 None None, SOk)
+  /\ path_segments_session false w_tab_url [PPush [46; 9; 46]]
+     = Some (mkUrl [104;116;116;112;58;47;47;104;47;97;47] 4 7 7 8 HI_Domain None 8 None None, SOk)
+  /\ path_segments_session true w_tab_url [PPush [46; 46]] = Some (w_tab_url, SOk)
+  /\ dd_count true CPathSegmentSetter STSpecialNotFile 8 [46; 9; 46] [104;116;116;112;58;47;47;104;47;97;47;98;47] 13 [] true = 1.
+Proof. vm_compute. repeat split; reflexivity. Qed.
